@@ -50,3 +50,7 @@ Definition run_c11 (e : expr) : list tuple :=
 (* the automaton as it was before repo_patches/untrusted, for replaying the findings *)
 Definition run_c11_old (e : expr) : list tuple :=
   map (obs_of_report (all_leaves tree)) (check_untrusted false tree funcs true e).
+
+(* the same with an arbitrary tree (the harness swaps BuiltinUntrustedInputs) *)
+Definition run_c11_tree (te : list utree * expr) : list tuple :=
+  map (obs_of_report (all_leaves (fst te))) (check_untrusted true (fst te) funcs true (snd te)).
